@@ -13,12 +13,13 @@ import contracts.modifiers as MDc
 import contracts.form_builder as FBc
 import contracts.species as SPc
 import contracts.potable_cli as CLIc
+import contracts.rawparser as RPc
 
 F_CP, F_MOD = CE.F_CP, CE.F_MOD
 FUNCTIONS = [(F_CP, '_TableFormSection._parse_data'), (F_CP, '_TableFormSection._parse_xy'), (F_CP, '_TableFormSection._parse_x_y'), (F_MOD, '_Buck4_Spline_Factory.build_spline'), (F_MOD, '_Exp_Spline_Factory.build_spline'),
              (F_CP, '_TabulationCutoff._init_cutoff'), (FC.FILE, 'DLPOLY_PairTabulationFactory.extract_cutoffs'), (FC.FILE, 'LAMMPS_PairTabulationFactory.extract_cutoffs'),
              (F_MOD, 'spline'), (F_MOD, 'trans'), (FBc.F_PFB, 'Potential_Form_Builder._make_multi_range_tuple'), (FBc.F_PFB, 'Potential_Form_Builder.create_potential_function'), (F_CP, 'ConfigParser._convert_species_type'), (F_CP, 'ConfigParser.species'), (BU.FILE, 'Pair_Potentials_From_Tuples_Builder._create_potential'), (BU.FILE, 'Pair_Potentials_From_Tuples_Builder._init_potentials'),
-             (CLIc.F_CLI, 'main')]      # potable: a configuration error becomes a usage error ('configuration error - ...'), never a traceback
+             (CLIc.F_CLI, 'main'), (F_CP, '_RawConfigParser.get')]      # potable: a configuration error becomes a usage error ('configuration error - ...'), never a traceback
 SPECSEQS = [FBc.chain_ranges, SPc.stripped]
 CONFIG_FILES = scan.package_files('atsim/potentials/config') + ['atsim/potentials/_modifiers.py', 'atsim/potentials/tools/potable/__init__.py', 'atsim/potentials/tools/potable/_actions.py']
 
@@ -43,7 +44,7 @@ def lemmas():
     # raw configparser errors
     out.append(S('C16', F_CP, 'ConfigParser._init_config_parser', 'parser-errors-become-configuration-errors',
                  ['except (configparser.DuplicateOptionError, configparser.DuplicateSectionError) as e:\n raise ConfigParserDuplicateEntryException(e.message)', 'except configparser.Error as e:\n raise ConfigParserException(e.message)']))
-    out.append(S('C16', F_CP, '_RawConfigParser.get', 'interpolation-errors-become-configuration-errors', ['except configparser.InterpolationError as e:\n raise ConfigParserException(e.message)']))
+    # _RawConfigParser.get is under an Engine A contract (contracts/rawparser.py, listed below): what leaves it for an option of a section is NoOptionError or a configuration error
     out.append(S('C16', F_CP, 'ConfigParser._pair_species_func', 'one-separator', ["tokens = k.split('-')", 'if len(tokens) != 2:\n raise ConfigParserException']))
     out.append(S('C16', F_CP, 'ConfigParser._parse_eam_fs_density_line', 'one-arrow', ["tokens = k.split('->')", 'if len(tokens) != 2:\n raise ConfigParserException']))
     out.append(S('C16', 'atsim/potentials/config/_table_form_builder.py', 'Table_Form_Builder.create_potential_form', 'interpolation-errors-become-configuration-errors',
